@@ -91,6 +91,20 @@ def both (wf : Bool) (conds : List Cond) (expMarks : List String) (m : Out)
 
 def noOverflow (a b : UInt64) : Bool := decide (a.toNat * b.toNat < 2 ^ 64)
 
+/-- `root:slot,root:slot,…` or `-` -/
+def parsePairs (s : String) : Option (List (UInt64 × UInt64)) :=
+  if s = "-" then some [] else
+  (s.splitOn ",").mapM fun e =>
+    match e.splitOn ":" with
+    | [a, b] => do pure (← parseU64 a, ← parseU64 b)
+    | _ => none
+
+/-- ancestors of a vote: representable slots, every root names one block (distinct, not the voted block, not the
+reserved "unknown" symbol 999) -/
+def ancestorsOk (broot : UInt64) (anc : List (UInt64 × UInt64)) : Bool :=
+  let roots := broot :: 999 :: anc.map (·.1)
+  anc.all (fun e => e.2 < 0x8000000000000000) && roots.eraseDups.length == roots.length
+
 def parseBlock (kv : KV) : Option BlockIn := do
   let spe ← getU kv "spe"
   if spe == 0 then none
@@ -106,11 +120,14 @@ def parseAtt (kv : KV) : Option AttIn := do
   if spe == 0 then none
   -- a chain entry's `Step` cannot represent slots ≥ 2^63 (AsStep panics): no backend can hold such a block
   if (← getU kv "bslot") ≥ 0x8000000000000000 then none
+  if !ancestorsOk (← getU kv "broot") (← (get kv "anc" >>= parsePairs)) then none
   pure { spe := spe, slot := ← getU kv "slot", index := ← getU kv "idx", targetEpoch := ← getU kv "tepoch",
          bitLen := ← getN kv "bitlen", setBits := ← getLN kv "bits", subnet := ← getU kv "subnet",
          blockIsFin := ← getB kv "bisfin", minSlot := ← getU kv "min", maxSlot := ← getU kv "max",
          bad := ← getB kv "bad", blockKnown := ← getB kv "bknown", blockSlot := ← getU kv "bslot",
-         targetSub := ← getTri kv "tsub", targetIsCkpt := ← getB kv "tckpt", finSub := ← getTri kv "fsub",
+         targetSub := ← getTri kv "tsub", blockRoot := ← getU kv "broot", targetRoot := ← getU kv "troot",
+         ancestors := ← (get kv "anc" >>= parsePairs), denebEpoch := ← getU kv "denebepoch",
+         finSub := ← getTri kv "fsub",
          finEpoch := ← getU kv "fepoch", towards := ← getB kv "tow", epc := ← getB kv "epc",
          cps := ← getU kv "cps", committee := ← getL kv "comm", seen := ← getB kv "seen",
          domainOk := ← getB kv "dom", sig := ← getB kv "sig" }
@@ -118,6 +135,8 @@ def parseAtt (kv : KV) : Option AttIn := do
 def parseAgg (kv : KV) : Option AggIn := do
   let spe ← getU kv "spe"
   if spe == 0 then none
+  if (← getU kv "bslot") ≥ 0x8000000000000000 then none
+  if !ancestorsOk (← getU kv "broot") (← (get kv "anc" >>= parsePairs)) then none
   let proof ← getHex kv "selproof"
   if proof.size != 96 then none
   pure { spe := spe, slot := ← getU kv "slot", index := ← getU kv "idx", targetEpoch := ← getU kv "tepoch",
@@ -125,7 +144,10 @@ def parseAgg (kv : KV) : Option AggIn := do
          blockIsFin := ← getB kv "bisfin", minSlot := ← getU kv "min", maxSlot := ← getU kv "max",
          seenAggregator := ← getB kv "seenaggr", seenAggregate := ← getB kv "seenagg",
          aggRoot := ← get kv "aggroot", bad := ← getB kv "bad", blockKnown := ← getB kv "bknown",
-         targetSub := ← getTri kv "tsub", targetIsCkpt := ← getB kv "tckpt", finSub := ← getTri kv "fsub",
+         blockSlot := ← getU kv "bslot",
+         targetSub := ← getTri kv "tsub", blockRoot := ← getU kv "broot", targetRoot := ← getU kv "troot",
+         ancestors := ← (get kv "anc" >>= parsePairs), denebEpoch := ← getU kv "denebepoch",
+         finSub := ← getTri kv "fsub",
          finEpoch := ← getU kv "fepoch", towards := ← getB kv "tow", epc := ← getB kv "epc",
          stateOk := ← getB kv "state", nVals := ← getU kv "nvals", commOk := ← getB kv "commok",
          committee := ← getL kv "comm", selProof := proof, selDecodes := ← getB kv "seldec",
@@ -191,11 +213,24 @@ def parseContrib (kv : KV) : Option ContribIn := do
 /-! well-formedness assumptions under which the specification column is binding (else `any`) -/
 
 def wfBlock (i : BlockIn) : Bool := noOverflow i.finEpoch i.spe
-/-- chain-view consistency: "target is the checkpoint block" implies "target is an ancestor" -/
-def wfTarget (tsub : Tri) (ckpt : Bool) : Bool := !ckpt || tsub == .yes
-def wfAtt (i : AttIn) : Bool := wfTarget i.targetSub i.targetIsCkpt && noOverflow i.cps i.spe
-/-- … and an unknown block has unknown ancestry (the aggregate validator learns "block seen" from `InSubtree`) -/
-def wfAgg (i : AggIn) : Bool := wfTarget i.targetSub i.targetIsCkpt && (i.blockKnown || i.targetSub == .unk)
+/-- chain-view consistency and sanity, for attestation and aggregate lines:
+* the checkpoint block of the vote, when it is the target, is not reported as a non-ancestor of the voted block;
+* walking from the voted block to the target epoch's start passes fewer than `SLOTS_PER_EPOCH` later blocks
+  (slots strictly decrease along parent links and the vote is in the target epoch);
+* the `fork` the line names is the fork of the clock's epoch under the node's `DENEB_FORK_EPOCH`. -/
+def wfVote (fork : Spec.Fork) (spe denebEpoch maxSlot targetEpoch blockRoot blockSlot targetRoot : UInt64)
+    (ancestors : List (UInt64 × UInt64)) (tsub : Tri) : Bool :=
+  let chain := (blockRoot, blockSlot) :: ancestors
+  let tslot := targetEpoch.toNat * spe.toNat
+  (Spec.checkpointOf tslot chain != some targetRoot || tsub != .no) &&
+  decide ((chain.takeWhile (fun e => decide (e.2.toNat > tslot))).length ≤ spe.toNat) &&
+  ((fork == .deneb) == decide (denebEpoch.toNat ≤ maxSlot.toNat / spe.toNat))
+def wfAtt (f : Spec.Fork) (i : AttIn) : Bool :=
+  wfVote f i.spe i.denebEpoch i.maxSlot i.targetEpoch i.blockRoot i.blockSlot i.targetRoot i.ancestors i.targetSub &&
+    noOverflow i.cps i.spe
+def wfAgg (f : Spec.Fork) (i : AggIn) : Bool :=
+  wfVote f i.spe i.denebEpoch i.maxSlot i.targetEpoch i.blockRoot i.blockSlot i.targetRoot i.ancestors i.targetSub &&
+    noOverflow i.targetEpoch i.spe
 def wfExit (i : ExitIn) : Bool := decide (i.activation.toNat + i.shardPeriod.toNat < 2 ^ 64)
 
 def bool01 (b : Bool) : String := if b then "true" else "false"
@@ -214,18 +249,10 @@ def line (l : String) : String :=
         | some i => both (wfBlock i) (Spec.blockConds i) (Spec.blockMarks i) (validateBlock i)
         | none => bad
       | "att" => match parseAtt kv, getFork kv with
-        | some i, some f =>
-          let ck := { i with targetIsCkpt := true }
-          both (wfAtt i) (Spec.attConds f i) (Spec.attMarks i) (validateAttestation i)
-            [("target-not-checkpoint", Spec.attConds f ck), ("eip7045-window", Spec.attConds .phase0 i),
-             ("target-not-checkpoint+eip7045-window", Spec.attConds .phase0 ck)]
+        | some i, some f => both (wfAtt f i) (Spec.attConds f i) (Spec.attMarks i) (validateAttestation i)
         | _, _ => bad
       | "agg" => match parseAgg kv, getFork kv with
-        | some i, some f =>
-          let ck := { i with targetIsCkpt := true }
-          both (wfAgg i) (Spec.aggConds f i) (Spec.aggMarks i) (validateAggregate i)
-            [("target-not-checkpoint", Spec.aggConds f ck), ("eip7045-window", Spec.aggConds .phase0 i),
-             ("target-not-checkpoint+eip7045-window", Spec.aggConds .phase0 ck)]
+        | some i, some f => both (wfAgg f i) (Spec.aggConds f i) (Spec.aggMarks i) (validateAggregate i)
         | _, _ => bad
       | "exit" => match parseExit kv with
         | some i => both (wfExit i) (Spec.exitConds i) (Spec.exitMarks i) (validateExit i)
